@@ -226,6 +226,10 @@ def run(rep, tier):
         rep.call(row_coverage.tail_complete, rep, prog, "C05.tail-complete")
         rep.call(row_coverage.zip_store, rep, prog, "C05.store-every-pixel")
         rep.call(index_rules.cropped_row_slices, rep, prog, "C05.view-rect")
+        # the owned containers hand out exactly height rows of exactly width pixels (none for a
+        # zero width, whatever the buffer holds beyond the image)
+        from . import c13 as _c13
+        rep.call(_c13.typed_image_rows, rep, prog, "C05.view-rows")
         from . import c12
         rep.call(c12.skip_arm, rep, prog, "C05.fallible-write")
         from . import c13
